@@ -35,8 +35,16 @@ def _wrapper(handle):
 hal.waitForNotifierAlarm = _wrapper
 
 
+BASES = [0, 0, 0, 2 ** 31 - 30000, 2 ** 32 - 50000, 2 ** 32 + 7000000]
+
+
 def run_trace(tid, events):
     hs.pauseTiming()
+    # some histories start shortly before / after the FPGA microsecond counter passes 2^31 or 2^32
+    target = BASES[tid % len(BASES)]
+    cur = wpilib.RobotController.getFPGATime()
+    if target > cur:
+        hs.stepTimingAsync(target - cur)
     base = wpilib.RobotController.getFPGATime()
     n0 = hs.getNumNotifiers()
     d = None
@@ -55,6 +63,8 @@ def run_trace(tid, events):
                 hs.stepTimingAsync(ev["b"])
             elif k == "wait":
                 d.wait()
+            elif k == "enter":
+                d.__enter__()
             elif k == "free":
                 if ev.get("how") == "with":
                     d.__exit__(None, None, None)
@@ -87,6 +97,9 @@ def random_events(rng):
         r = rng.random()
         if r < 0.04:
             evs.append({"e": "free", "how": rng.choice(["free", "with", "with_exc"])})
+            continue
+        if r < 0.08:
+            evs.append({"e": "enter"})
             continue
         if style == "short":
             b = rng.choice([0, 1, P // 4, P // 2, P - 1])
